@@ -368,17 +368,18 @@ theorem dirOK_exclusive (a : Bool) (p : Nat) (h1 : dirOK a p = true) (h2 : dirOK
 /-- honest traffic: every segment of a stream carries a type its sealer may send -/
 def DirWf (K : List Stream) : Prop := ∀ st ∈ K, ∀ s ∈ st.segs, dirOK (!st.fromClient) (ids s.md).proto = true
 
-/-- per stream and session the data-bearing segments are numbered 0, 1, 2, … (open request / response
-    first) -/
-def SeqWf (K : List Stream) : Prop :=
-  ∀ st ∈ K, ∀ sid i (h : i < (dataOf ids sid st.segs).length), (ids ((dataOf ids sid st.segs)[i]).md).seq = i
+/-- in every stream the data-bearing segments of session `sid` are numbered 0, 1, 2, … (open request /
+    response first) -/
+def SeqWf (sid : Nat) (K : List Stream) : Prop :=
+  ∀ st ∈ K, ∀ i (h : i < (dataOf ids sid st.segs).length), (ids ((dataOf ids sid st.segs)[i]).md).seq = i
 
 /-- If every segment the underlay emitted is a segment of stream `st`: a reader on the sealer's own
     side gets nothing; a reader on the other side gets a prefix of what the peer's session wrote. -/
 theorem appRead_of_stream (st : Stream)
     (hdir : ∀ s ∈ st.segs, dirOK (!st.fromClient) (ids s.md).proto = true)
-    (hseq : ∀ sid i (h : i < (dataOf ids sid st.segs).length), (ids ((dataOf ids sid st.segs)[i]).md).seq = i)
-    (isClient : Bool) (sid : Nat) (out : List (Md × Bytes)) (hout : ∀ e ∈ out, e ∈ st.segs.map evOf) :
+    (isClient : Bool) (sid : Nat)
+    (hseq : ∀ i (h : i < (dataOf ids sid st.segs).length), (ids ((dataOf ids sid st.segs)[i]).md).seq = i)
+    (out : List (Md × Bytes)) (hout : ∀ e ∈ out, e ∈ st.segs.map evOf) :
     (st.fromClient = isClient → appRead ids isClient sid out = []) ∧
     ∃ k, appRead ids isClient sid out = ((dataOf ids sid st.segs).take k).map (·.payload) := by
   obtain ⟨es, hread, hes, hnum⟩ := sessionRead_spec ids isClient sid isClient 0 (underlayCut ids isClient true out)
@@ -419,7 +420,7 @@ theorem appRead_of_stream (st : Stream)
         have hr : r < es.length := by omega
         obtain ⟨s, hs, he, _⟩ := hD (es[r]) (List.getElem_mem hr)
         obtain ⟨i, hi, hget⟩ := List.getElem_of_mem hs
-        have h1 := hseq sid i hi
+        have h1 := hseq i hi
         have h2 := hnum r hr
         rw [he] at h2
         rw [hget] at h1
@@ -430,7 +431,7 @@ theorem appRead_of_stream (st : Stream)
       simp only [List.getElem_map, List.getElem_take]
       obtain ⟨s, hs, he, _⟩ := hD (es[t]) (List.getElem_mem h1)
       obtain ⟨i, hi, hget⟩ := List.getElem_of_mem hs
-      have e1 := hseq sid i hi
+      have e1 := hseq i hi
       have e2 := hnum t h1
       rw [he] at e2
       rw [hget] at e1
@@ -440,7 +441,6 @@ theorem appRead_of_stream (st : Stream)
       rw [he, ← hget]
       rfl
 
-/-- a toy ideal AEAD for a family: opens exactly what some stream of the family sealed -/
 theorem sublist_run_mem (segs : List Seg) (j0 j : Nat) :
     ∀ e ∈ ((segs.take j).drop j0).map evOf, e ∈ segs.map evOf := by
   intro e he
